@@ -100,16 +100,14 @@ def nd_binop(ex, sym, a, b, p, node):
     return [(p, NDArr(arr.n, at, "float64" if not scn.is_int else arr.dtype))]
 
 
-_SUMS = {}
+NDSUM = z3.Function("ndsum", z3.ArraySort(z3.IntSort(), z3.RealSort()), z3.IntSort(), z3.RealSort())
 
 
 def nd_sum(ex, base: NDArr):
-    """assumed (numpy): arr.sum() is a function of the array -- one uninterpreted real per array value (the array object is
-    kept alive so that its identity stays unique)"""
-    if id(base) not in _SUMS:
-        _SUMS[id(base)] = (base, Num(ex.fresh_sym(z3.RealSort(), "ndsum")))
-    ex.trace["assumed"].add("numpy: arr.sum() is a function of the array (uninterpreted)")
-    return _SUMS[id(base)][1]
+    """assumed (numpy): arr.sum() is a function of the array's length and entries (uninterpreted: ndsum(entries, n))"""
+    i = z3.Int("ndsum_i")
+    ex.trace["assumed"].add("numpy: arr.sum() is a function of the array's entries and length (uninterpreted)")
+    return Num(NDSUM(z3.Lambda([i], base.at(i).real()), base.n))
 
 
 def np_mean(ex, p, args, kw, node):
